@@ -419,3 +419,139 @@ func TestVerifC03AddressForms(t *testing.T) {
 	run.Floor("messages_from_blocked_address", total)
 	run.Floor("messages_from_blocked_zoned_tcp_udp_peer", int64(2*len(blocks)*4))
 }
+
+// ---------------------------------------------------------------------------
+// C03 — whitelist SPELLINGS: in this server a whitelisted address passes the address
+// gate even when blacklisted (documented precedence), so "blacklisted addresses are
+// never authenticated" is judged only for addresses that are not whitelisted in the
+// harness's model: an operator's whitelist entry exists from AddToWhitelist(spelling)
+// until RemoveFromWhitelist with the SAME spelling. After that removal a blacklisted
+// address must be refused, however the operator spelt the entry.
+
+type c03wlSpelling struct {
+	name string
+	v6   bool
+	text func(i int) string
+}
+
+func TestVerifC03WhitelistSpellings(t *testing.T) {
+	run := vk.Start(t, "C03", "whitelist-spellings")
+	defer run.Finish()
+	v4 := func(i int) string { return fmt.Sprintf("10.97.%d.5", i) }
+	v6 := func(i int) string { return fmt.Sprintf("2001:db8:%x::1a", 0x100+i) }
+	spellings := []c03wlSpelling{
+		{"v4-canonical", false, v4},
+		{"v4-mapped-ipv6", false, func(i int) string { return "::ffff:" + v4(i) }},
+		{"v4-cidr-canonical", false, func(i int) string { return fmt.Sprintf("10.97.%d.0/24", i) }},
+		{"v4-cidr-host-bits", false, func(i int) string { return fmt.Sprintf("10.97.%d.77/24", i) }},
+		{"v4-leading-zeros", false, func(i int) string { return fmt.Sprintf("010.097.%d.005", i) }},
+		{"v6-canonical", true, v6},
+		{"v6-upper-case", true, func(i int) string { return strings.ToUpper(v6(i)) }},
+		{"v6-uncompressed", true, func(i int) string { return fmt.Sprintf("2001:0db8:%04x:0000:0000:0000:0000:001a", 0x100+i) }},
+		{"v6-cidr-canonical", true, func(i int) string { return fmt.Sprintf("2001:db8:%x::/64", 0x100+i) }},
+		{"v6-cidr-host-bits-upper", true, func(i int) string { return fmt.Sprintf("2001:DB8:%X::1A/64", 0x100+i) }},
+	}
+	orders := []string{"wl+,wl-,bl+", "bl+,wl+,wl-", "wl+,bl+,check,wl-", "wl+,wl+,wl-,bl+"}
+	run.Rule(fmt.Sprintf("every whitelist spelling %d kinds (canonical / IPv4-mapped / CIDR with host bits / leading zeros / upper-case / uncompressed IPv6) x operator order %v x blacklist entry {exact, covering CIDR} x message {FC, P1+P2valid} x {no restart, restart of the address list}; removal always with the SAME spelling as the add; each case on an address of its own; distinct = the case tuple", len(spellings), orders))
+	r := run.Rand("wlspell")
+	w := c03bNewWorld(t, run)
+	defer func() { w.close() }()
+	idx := 0
+	for _, sp := range spellings {
+		for _, order := range orders {
+			for _, blk := range []string{"exact", "cidr"} {
+				for _, msg := range []string{"FC", "P2valid"} {
+					restart := r.Intn(3) == 0
+					idx++
+					if idx > 250 {
+						t.Fatalf("c03: address space of the case generator exhausted")
+					}
+					spelling := sp.text(idx)
+					plain := v4(idx)
+					blKey := fmt.Sprintf("10.97.%d.4/31", idx)
+					var peer func(port int) net.Addr
+					if sp.v6 {
+						plain = v6(idx)
+						blKey = fmt.Sprintf("2001:db8:%x::1a/127", 0x100+idx)
+						peer = func(port int) net.Addr { return &net.TCPAddr{IP: net.ParseIP(plain), Port: port} }
+					} else {
+						peer = func(port int) net.Addr { return vk.FakeAddr{Net: "tcp", Str: fmt.Sprintf("%s:%d", plain, port)} }
+					}
+					if blk == "exact" {
+						blKey = plain
+					}
+					run.Case("wlspell", []any{sp.name, order, blk, msg, restart})
+					whitelisted, blacklisted, rejected := false, false, false
+					port := 6000
+					handshake := func(final bool) {
+						port++
+						cc := w.connectFrom(peer(port), "peer")
+						msgs := [][2]any{{"FC", int64(0)}}
+						if msg == "P2valid" {
+							A := w.ids[r.Intn(3)]
+							msgs = [][2]any{{"P1", A}, {"P2valid", A}}
+						}
+						for _, m := range msgs {
+							res := w.send(cc, m[0].(string), m[1].(int64), false)
+							auth1, id1 := w.observe(cc)
+							if !blacklisted || whitelisted {
+								run.Count("messages_not_judged_whitelisted_or_not_blacklisted", 1)
+								continue
+							}
+							run.Count("messages_from_blacklisted_address_whose_whitelist_entry_was_removed", 1)
+							if auth1 || (res.replyOK && res.kind != "P1") {
+								run.Violation("C03:wlspell|authenticated-while-address-blacklisted-and-not-whitelisted|spelling="+sp.name, map[string]any{"address": plain, "whitelist_spelling": spelling, "blacklist_key": blKey, "order": order, "msg": res.kind, "after_restart": restart && final, "after": []any{auth1, w.cname(id1)}, "reply_success": res.replyOK})
+								return
+							}
+							run.Count("refused_from_blacklisted_address_whose_whitelist_entry_was_removed", 1)
+						}
+					}
+					for _, step := range strings.Split(order, ",") {
+						switch step {
+						case "wl+":
+							if err := w.n.IPM.AddToWhitelist(spelling, "verif", "operator"); err != nil {
+								rejected = true // the address list does not accept this spelling
+							} else {
+								whitelisted = true
+							}
+						case "wl-":
+							w.n.IPM.RemoveFromWhitelist(spelling)
+							whitelisted = false
+						case "bl+":
+							if err := w.n.IPM.AddToBlacklist(blKey, 0, "verif", "operator"); err != nil {
+								t.Fatalf("c03: AddToBlacklist(%s): %v", blKey, err)
+							}
+							blacklisted = true
+						case "check":
+							handshake(false)
+						}
+					}
+					if rejected {
+						run.Count("spellings_rejected_by_address_list", 1)
+					} else {
+						run.Count("whitelist_entries_added_and_removed_with_same_spelling", 1)
+						if !strings.HasSuffix(sp.name, "canonical") {
+							run.Count("non_canonical_whitelist_entries_added_and_removed", 1)
+						}
+					}
+					if restart {
+						w.restartAddressList()
+						run.Count("address_list_restarts", 1)
+					}
+					handshake(true)
+					run.Eval(1)
+					run.Distinct(fmt.Sprintf("%s|%s|%s|%s|%v", sp.name, order, blk, msg, restart))
+					for _, c := range w.opened {
+						c.c.CloseByPeer()
+					}
+					w.opened = nil
+				}
+			}
+		}
+	}
+	run.Exhaustive(true)
+	total := int64(len(spellings) * len(orders) * 4)
+	run.Floor("messages_from_blacklisted_address_whose_whitelist_entry_was_removed", total)
+	run.Floor("refused_from_blacklisted_address_whose_whitelist_entry_was_removed", total/2)
+	run.Floor("non_canonical_whitelist_entries_added_and_removed", total/3)
+}
